@@ -455,7 +455,7 @@ class ActionLink(Action):
 
     @staticmethod
     def strip_link_target_keys(parser, cfg):
-        def del_target_key(target_key):
+        def del_target_key(target_key, cfg=cfg):
             cfg.pop(target_key, None)
             if "." not in target_key:
                 return
@@ -470,6 +470,10 @@ class ActionLink(Action):
         for action in [a for a in parser._actions if isinstance(a, ActionTypeHint) and hasattr(a, "sub_add_kwargs")]:
             for key in action.sub_add_kwargs.get("linked_targets", []):
                 del_target_key(f"{action.dest}.init_args.{key}")
+                value = cfg.get(action.dest)
+                if isinstance(value, list):
+                    for item in [i for i in value if isinstance(i, Namespace)]:
+                        del_target_key(f"init_args.{key}", item)
 
         with _ActionSubCommands.not_single_subcommand():
             subcommands, subparsers = _ActionSubCommands.get_subcommands(parser, cfg)
